@@ -57,6 +57,7 @@ fn registry(id: &str) -> Option<(&'static str, RunFn, ReplayFn)> {
         "C13" => ("C13", props::c13::run, props::c13::replay),
         "C14" => ("C14", props::c14::run, props::c14::replay),
         "C15" => ("C15", props::c15::run, props::c15::replay),
+        "C16" => ("C16", props::c16::run, props::c16::replay),
         "C17" => ("C17", props::c17::run, props::c17::replay),
         "C18" => ("C18", props::c18::run, props::c18::replay),
         "C19" => ("C19", props::c19::run, props::c19::replay),
